@@ -11,6 +11,7 @@ LEAN_HELPERS = ['MV.Lemmas.Mxl', 'MV.Lemmas.MxlSim', 'MV.Model.Mxl', 'MV.Model.M
                 'MV.Model.Basic']
 DRIVERS = ['C08']
 GEN = ['Tables', 'Library', 'Mxl']
+SRC_TIE = ['SrcSpell']   # py2lean source images of get_note_spelling / tonality_to_music21_key proved equal to the model (MV/Props/TieSrcSpell.lean)
 RULE = ('random scores: 1-4 chords in all nine modes x 12 tonics, 1-3 parts (two of them sharing one music21 Part as '
         'voices), parts of unequal lengths and absent from some chords, rests and continuations anywhere (first position, '
         'after rests, across chords, in chains, after absences), all pitched note systems incl. relative notes, dynamics; '
@@ -25,7 +26,10 @@ TRUSTED = ['hand-written model of to_mxl.py (MV/Model/Mxl.lean) tied by the stre
            'nameWithOctave -> Note round trip (exercised by every stream, not proved)',
            'the denotation of the MIDI side is what the note matrix sounds per track (harness/sound.impl_sound, '
            'modelled as soundR; its equality with to_events is C03)',
-           'dynamics marks and lyrics are not modelled (zero duration, outside the claim)']
+           'dynamics marks and lyrics are not modelled (zero duration, outside the claim)',
+           'source tie SrcSpell: the spec bindings of harness/srcgroups/SrcSpell.py (Note(name + str(octave)) kept as the pair '
+           '(name, octave), Note(pc) / .octave = o as the pitch class with its octave, .duration outside the spelling, '
+           'note_to_pitch_result and Tonality.scale_pitches bound to the model functions tied by C01)']
 ASSUMPTIONS = ['notation range: every sounding pitch has a spelled octave >= 0 (MIDI number >= 24); below it music21 '
                'reads "C-1" as C-flat 1 and rejects "Eb-1"',
                'tonality degree in 0..11, chord degree in 0..6, durations > 0 with denominators <= 1000',
@@ -407,6 +411,9 @@ def correspondence(ctx):
             keys.append({'line': sx('key', enc_ton(ton)), 'impl': py_res(lambda: tonality_to_music21_key(ton), show),
                          'canon': canon_key, 'input': {'tonality': str(ton)}, 'bucket': [mode], 'nontrivial': True})
     ctx.compare('key', 'C08', keys)
+    # kernel-level streams of the source tie (DESIGN §9.6): real function vs model, real function vs generated source image
+    import srctie
+    srctie.run(ctx, SRC_TIE)
 
 # ----------------------------------------------------------------------------- oracle (the property itself)
 
